@@ -60,8 +60,8 @@ TRUSTED = [
 
 KINDS = {'p': 'PullRequestJob', 'c': 'CommitJob', 'a': 'APIJob'}
 # outcome name -> (family of the model, how the stub ends)
-OUTCOMES = ['ok', 'silent', 'template', 'internal', 'failure', 'other', 'keyerror', 'exit']
-PROPERTY_OUTCOMES = {'ok', 'silent', 'template', 'internal', 'failure', 'other', 'keyerror'}
+OUTCOMES = ['ok', 'silent', 'template', 'internal', 'failure', 'other', 'keyerror', 'exit', 'empty']
+PROPERTY_OUTCOMES = {'ok', 'silent', 'template', 'internal', 'failure', 'other', 'keyerror', 'empty'}
 
 
 class _Stop(BaseException):
@@ -154,6 +154,8 @@ def _raise_outcome(name):
         raise ValueError('boom')
     if name == 'keyerror':
         raise KeyError('current job')
+    if name == 'empty':
+        raise RuntimeError()        # an arbitrary exception whose message is empty
     if name == 'exit':
         raise SystemExit(3)
     raise AssertionError(name)
@@ -173,12 +175,13 @@ def _template():
 
 def outcome_family(name):
     return {'ok': None, 'silent': 'silent', 'template': 'template', 'internal': 'internal',
-            'failure': 'failure', 'other': 'other', 'keyerror': 'other', 'exit': 'exit'}[name]
+            'failure': 'failure', 'other': 'other', 'keyerror': 'other', 'exit': 'exit', 'empty': 'other'}[name]
 
 
 def outcome_class(name):
     return {'ok': None, 'silent': 'NothingToDo', 'template': 'QueueOutOfOrder', 'internal': 'UnsupportedTokenType',
-            'failure': 'JobFailure', 'other': 'ValueError', 'keyerror': 'KeyError', 'exit': 'SystemExit'}[name]
+            'failure': 'JobFailure', 'other': 'ValueError', 'keyerror': 'KeyError', 'exit': 'SystemExit',
+            'empty': 'RuntimeError'}[name]
 
 
 def _make_job(b, kind, key):
@@ -421,8 +424,8 @@ class Execution:
             for job in reqs:
                 try:
                     self.b.put_job(job)
-                except RuntimeError as e:
-                    self.marks.append(('request-failed', tid, getattr(job, '_mid', None), str(e)))
+                except Exception as e:      # put_job raised: the request is answered with an error, not accepted
+                    self.marks.append(('request-failed', tid, getattr(job, '_mid', None), repr(e)))
         return body
 
     def _worker_body(self):
@@ -929,7 +932,9 @@ def correspondence(ctx):
     res.extra['real_side_wall_s'] = round(time.time() - t0, 1)
     _merge(res, packs, ctx.model)
     herr = res.extra.get('harness_errors')
-    if herr:
+    if herr and not ctx.searching:
+        # (while searching for a failing input on a tree whose tie already broke, executions the model cannot
+        # follow are expected: the oracle verdicts of the real executions are what is wanted then)
         raise RuntimeError('scheduler/harness error: %s' % herr[:2])
     res.extra.pop('_witness', None)
     return res
